@@ -816,6 +816,26 @@ theorem seen_listed_of_no_hits (w : World) (h : w.seen.any (hits w.fs) = false) 
 theorem died_of_diesAt_none (w : World) (h : w.diesAt = none) : w.died = false := by
   simp [World.died, h]
 
+theorem killAfter_hits_at (fs : FS) (k : Nat) (t : List Fd) (d : Fd) (h : t[k]? = some d)
+    (hr : reachesFdinfo fs d.kind = true) : (killAfter k t).any (hits fs) = true := by
+  induction t generalizing k with
+  | nil => simp at h
+  | cons x xs ih =>
+    cases k with
+    | zero =>
+      simp only [List.getElem?_cons_zero, Option.some.injEq] at h
+      subst h
+      rw [reachesFdinfo_eq] at hr
+      have : hits fs (afterLink x) = true := by
+        unfold afterLink hits
+        cases hc : x.closesAt with
+        | none => simpa using hr
+        | some st => cases st <;> simp [hc, hr]
+      simp [killAfter, this]
+    | succ k =>
+      simp only [List.getElem?_cons_succ] at h
+      simp only [killAfter, List.any_cons, ih k h, Bool.or_true]
+
 /-- descriptors that close do not disturb the report about the others -/
 theorem listed_filter_open (fs : FS) (t : List Fd) :
     t.filterMap (listed fs) = (t.filter fun d => d.closesAt.isNone).filterMap (listed fs) := by
